@@ -415,6 +415,18 @@ thread_local! {
     pub static MY_SHARD: std::cell::Cell<usize> = const { std::cell::Cell::new(usize::MAX) };
 }
 static ABORT_PROPERTY: Mutex<String> = Mutex::new(String::new());
+/// per shard: milliseconds since process start at which the case in SLOTS[shard] began (0 = idle)
+#[allow(clippy::declare_interior_mutable_const)]
+const ZERO_U64: std::sync::atomic::AtomicU64 = std::sync::atomic::AtomicU64::new(0);
+pub static SLOT_STARTED: [std::sync::atomic::AtomicU64; SHARDS] = [ZERO_U64; SHARDS];
+static PROCESS_START: std::sync::OnceLock<Instant> = std::sync::OnceLock::new();
+fn now_ms() -> u64 {
+    PROCESS_START.get_or_init(Instant::now).elapsed().as_millis() as u64 + 1
+}
+/// the case of this shard is over (enumeration loops call this when they finish)
+pub fn slot_idle(shard: usize) {
+    SLOT_STARTED[shard % SHARDS].store(0, Ordering::SeqCst);
+}
 static ABORT_DIR: std::sync::OnceLock<std::ffi::CString> = std::sync::OnceLock::new();
 
 /// remember the case this shard is about to run as a complete replay file
@@ -432,6 +444,7 @@ pub fn slot_set(shard: usize, property: &str, check: &str, case_json: &str) {
     } else {
         slot.len.store(0, Ordering::SeqCst);
     }
+    SLOT_STARTED[shard % SHARDS].store(now_ms(), Ordering::SeqCst);
 }
 
 extern "C" fn on_abort(_sig: libc::c_int) {
@@ -781,6 +794,22 @@ pub fn start_watchdog(property: String, root: PathBuf) {
             for slot in w.iter().flatten() {
                 if slot.0.elapsed().as_secs() > limit {
                     hung = Some((slot.1.clone(), slot.2.clone()));
+                }
+            }
+        }
+        if hung.is_none() {
+            // enumeration loops do not use the WATCH table; they publish their case in SLOTS
+            let now = now_ms();
+            for shard in 0..SHARDS {
+                let t = SLOT_STARTED[shard].load(Ordering::SeqCst);
+                if t != 0 && now.saturating_sub(t) > limit * 1000 {
+                    let n = SLOTS[shard].len.load(Ordering::SeqCst);
+                    if n > 0 {
+                        let bytes = unsafe { std::slice::from_raw_parts(SLOTS[shard].buf.get() as *const u8, n) }.to_vec();
+                        if let Ok(rf) = serde_json::from_slice::<ReplayFile>(&bytes) {
+                            hung = Some((rf.check.clone(), rf.case.to_string()));
+                        }
+                    }
                 }
             }
         }
